@@ -10,13 +10,14 @@ static Json acc_json(const Access &a) {
     if (!a.nstart.empty()) { Json s = Json::arr(), c = Json::arr(); for (auto &x : a.nstart) s.push(Json::from(x)); for (auto &x : a.ncount) c.push(Json::from(x)); j.set("nstart", s).set("ncount", c); }
     j.set("memtype", a.memtype).set("flexible", a.flexible).set("bufkind", a.bufkind).set("invalid", a.invalid);
     if (a.vrank >= 0) j.set("vrank", a.vrank);
+    if (a.erange >= 0) j.set("erange", a.erange);
     return j;
 }
 static Access acc_from(const Json &j) {
     Access a; a.active = j.at("active").num(1); a.form = (int)j.at("form").num(); a.start = j.at("start").ints(); a.count = j.at("count").ints();
     a.stride = j.at("stride").ints(); a.imap = j.at("imap").ints();
     for (auto &x : j.at("nstart").a) a.nstart.push_back(x.ints()); for (auto &x : j.at("ncount").a) a.ncount.push_back(x.ints());
-    a.memtype = (int)j.at("memtype").num(); a.flexible = j.at("flexible").num(); a.bufkind = (int)j.at("bufkind").num(); a.invalid = (int)j.at("invalid").num(); a.vrank = (int)j.at("vrank").num(-1);
+    a.memtype = (int)j.at("memtype").num(); a.flexible = j.at("flexible").num(); a.bufkind = (int)j.at("bufkind").num(); a.invalid = (int)j.at("invalid").num(); a.vrank = (int)j.at("vrank").num(-1); a.erange = (int)j.at("erange").num(-1);
     return a;
 }
 static Json op_json(const Op &op) {
@@ -31,7 +32,7 @@ static Json op_json(const Op &op) {
     if (op.alt_rank >= 0) j.set("alt_rank", op.alt_rank).set("alt_name", op.alt_name).set("alt_val", op.alt_val);
     if (!op.coll) j.set("coll", false);
     if (!op.acc.empty()) { Json a = Json::arr(); for (auto &x : op.acc) a.push(acc_json(x)); j.set("acc", a); }
-    if (!op.waits.empty()) { Json a = Json::arr(); for (auto &w : op.waits) { Json o = Json::obj(); o.set("active", w.active).set("mode", w.mode).set("slots", Json::from(w.slots)); a.push(o); } j.set("waits", a); }
+    if (!op.waits.empty()) { Json a = Json::arr(); for (auto &w : op.waits) { Json o = Json::obj(); o.set("active", w.active).set("mode", w.mode).set("slots", Json::from(w.slots)); if (w.nostatus) o.set("nostatus", true); a.push(o); } j.set("waits", a); }
     if (!op.hints.empty()) { Json h = Json::obj(); for (auto &kv : op.hints) h.set(kv.first, kv.second); j.set("hints", h); }
     if (op.only_rank >= 0) j.set("only_rank", op.only_rank);
     return j;
@@ -45,7 +46,7 @@ static Op op_from(const Json &j) {
     op.coll = j.has("coll") ? (bool)j.at("coll").num() : true;
     op.alt_rank = (int)j.at("alt_rank").num(-1); op.alt_name = j.at("alt_name").str(); op.alt_val = j.at("alt_val").num();
     for (auto &x : j.at("acc").a) op.acc.push_back(acc_from(x));
-    for (auto &x : j.at("waits").a) { WaitSpec w; w.active = x.at("active").num(1); w.mode = (int)x.at("mode").num(); for (auto s : x.at("slots").ints()) w.slots.push_back((int)s); op.waits.push_back(w); }
+    for (auto &x : j.at("waits").a) { WaitSpec w; w.active = x.at("active").num(1); w.mode = (int)x.at("mode").num(); w.nostatus = x.at("nostatus").num() != 0; for (auto s : x.at("slots").ints()) w.slots.push_back((int)s); op.waits.push_back(w); }
     for (auto &kv : j.at("hints").o) op.hints[kv.first] = kv.second.str();
     op.only_rank = j.has("only_rank") ? (int)j.at("only_rank").num() : -1;
     return op;
